@@ -262,6 +262,13 @@ func runScenario(ogenBin string, scn scenario, dir string) runResult {
 	case "config_type":
 		os.WriteFile(filepath.Join(dir, "cfg.yml"), []byte("generator:\n  convenient_errors: [1]\n"), 0o644)
 		args = append(args, "--config", filepath.Join(dir, "cfg.yml"))
+	case "config_found_unreadable":
+		// no --config: a configuration file is looked for in the working directory; the first
+		// candidate exists and cannot be read (it is a directory)
+		os.MkdirAll(filepath.Join(cwd, "ogen.yml"), 0o755)
+	case "config_found_yaml":
+		// ... the last candidate exists and is not YAML
+		os.WriteFile(filepath.Join(cwd, ".ogen.yaml"), []byte("generator: [\n"), 0o644)
 	}
 	switch scn.FailAt {
 	case "nospec":
